@@ -393,6 +393,7 @@ class C03Prop(HistProp):
         if not qs or nodes is None or edges is None:
             return []
         directed = c["spec"][0]
+        multi_graph = bool(c["spec"][1])
         wq = [q for q in qs if q[1] != "alg_nbrs"]
         weighted = bool((wq[0][2][1] if wq[0][1] == "alg_sssp" else wq[0][2][0]) if wq else 0)
         w = {}
@@ -444,7 +445,16 @@ class C03Prop(HistProp):
                 got = {r[0]: f for r, f in zip(res[1], res[2])}
                 exp = {nodes[t]: d[idx[x]][t] for t in range(n) if d[idx[x]][t] is not None}
                 cut = ""
-                if len(op[2]) > 2 and op[2][2] >= 3 and exp:
+                if len(op[2]) > 2 and op[2][2] == 5 and exp:
+                    # a target (the largest reachable name), distances only: the target is reported with its shortest
+                    # distance; which other nodes are settled before it depends on the history, their distances do not
+                    tgt = max(exp)
+                    bad = [k for k in got if k not in exp or Fraction(got[k]) != exp[k]]
+                    if tgt not in got or bad:
+                        msgs.append("single_source(%d, weighted=%s, target=%d, with_paths=false) reports %s; get_all_edges() alone "
+                                    "gives %s" % (x, weighted, tgt, sorted(got.items()), sorted((k, float(v)) for k, v in exp.items())))
+                    continue
+                if len(op[2]) > 2 and op[2][2] in (3, 4) and exp:
                     # cutoff = the median of the distinct distances: exactly the nodes within it are reported
                     ds = sorted(set(exp.values()))
                     dc = ds[len(ds) // 2]
@@ -454,6 +464,41 @@ class C03Prop(HistProp):
                     msgs.append("distances from %d reported by single_source(weighted=%s%s) %s differ from those computed "
                                 "from get_all_edges() alone %s" % (x, weighted, cut, sorted(got.items()),
                                                                    sorted((k, float(v)) for k, v in exp.items())))
+            elif name == "alg_ev":
+                if multi_graph:
+                    if code != 12:
+                        msgs.append("eigenvector_centrality on a multi-edge graph: code %d, expected WrongMethod" % code)
+                    continue
+                if code == 9:
+                    continue            # PowerIterationFailedConvergence is an allowed answer
+                if code != 0:
+                    msgs.append("eigenvector_centrality(weighted=%s) failed with code %d" % (weighted, code))
+                    continue
+                xs = {r[0]: f for r, f in zip(res[1], res[2])}
+                if sorted(xs) != sorted(nodes):
+                    msgs.append("eigenvector_centrality: entries %s, nodes %s" % (sorted(xs), sorted(nodes)))
+                    continue
+                import math
+                # A[u][v] from get_all_edges() alone (single-edge graph: one stored edge per pair; undirected symmetric)
+                A = {}
+                for e in edges:
+                    # (x + A^T x is not invariant under the dyadic weight scale of the case: the code sees w * 2^k)
+                    wt_ = float(e[3]) * 2.0 ** c.get("wscale", 0) if (weighted and e[2] == 1) else 1.0
+                    A[(e[0], e[1])] = wt_
+                    if not directed:
+                        A[(e[1], e[0])] = wt_
+                nrm = math.sqrt(sum(t_ * t_ for t_ in xs.values()))
+                y = dict(xs)
+                for (u, v), a in A.items():
+                    y[v] += xs[u] * a
+                ny = math.sqrt(sum(t_ * t_ for t_ in y.values())) or 1.0
+                moved = sum(abs(y[k] / ny - xs[k]) for k in xs)
+                fro = math.sqrt(n + sum(a * a for a in A.values()) + 2 * sum(a for (u, v), a in A.items() if u == v))
+                bound = 2 * math.sqrt(n) * fro * n * 1e-6 + 1e-9
+                if abs(nrm - 1.0) > 1e-9 or min(xs.values()) < 0 or moved > bound:
+                    msgs.append("eigenvector_centrality(weighted=%s) is not the unit-norm approximate fixed point of x -> "
+                                "normalise(x + A^T x) for the adjacency matrix of get_all_edges(): norm %r, one more step "
+                                "moves it by %r (bound %r)" % (weighted, nrm, moved, bound))
             else:
                 if code != 0:
                     msgs.append("%s(weighted=%s) failed with code %d" % (name, weighted, code))
